@@ -41,8 +41,8 @@ pub fn rm_strategy() -> BoxedStrategy<RM> {
         }),
         2 => body_bytes().prop_map(RM::Audio),
         2 => body_bytes().prop_map(RM::Video),
-        4 => gen::amf_values(AmfCfg::LIB, 5).prop_map(RM::Data),
-        5 => (gen::amf_string(false, true), gen::amf_number_bits(), gen::amf_value(AmfCfg::LIB), gen::amf_values(AmfCfg::LIB, 4))
+        4 => gen::amf_values(AmfCfg::LIB_CHAIN, 5).prop_map(RM::Data),
+        5 => (gen::amf_string(false, true), gen::amf_number_bits(), gen::amf_value(AmfCfg::LIB_CHAIN), gen::amf_values(AmfCfg::LIB_CHAIN, 4))
             .prop_map(|(n, t, o, a)| RM::Command(n, t, o, a)),
         2 => (any::<u8>().prop_filter("unknown type ids only", |t| !rm::KNOWN_TYPES.contains(t)), body_bytes()).prop_map(|(t, d)| RM::Unknown(t, d)),
     ]
@@ -301,8 +301,8 @@ pub fn spec() -> PropSpec {
             PropCheck::new("reference-body-decodes", |_| {
                 let m = prop_oneof![
                     3 => rm_strategy(),
-                    2 => gen::amf_values(AmfCfg::WIRE, 5).prop_map(RM::Data),
-                    3 => (gen::amf_string(false, true), gen::amf_number_bits(), gen::amf_value(AmfCfg::WIRE), gen::amf_values(AmfCfg::WIRE, 4)).prop_map(|(n, t, o, a)| RM::Command(n, t, o, a)),
+                    2 => gen::amf_values(AmfCfg::WIRE_CHAIN, 5).prop_map(RM::Data),
+                    3 => (gen::amf_string(false, true), gen::amf_number_bits(), gen::amf_value(AmfCfg::WIRE_CHAIN), gen::amf_values(AmfCfg::WIRE_CHAIN, 4)).prop_map(|(n, t, o, a)| RM::Command(n, t, o, a)),
                 ];
                 (m, 0u8..3).prop_filter("legal chunk sizes only", |(m, _)| !matches!(m, RM::SetChunkSize(v) if *v > 0x7FFF_FFFF)).prop_map(|(msg, alias)| DecCase { msg, alias }).boxed()
             }, 120_000, 4_000_000, eval_decode),
